@@ -9,7 +9,7 @@ use crate::util::{par_map, Kv};
 
 pub fn meta(ctx: &Ctx) -> Meta {
     Meta {
-        rule: format!("single layers: FULL lattice L (kernel 1-3 x stride 1-2(3 for pool) x padding 0-2 x dilation 1-2 x channels 1-2 x filters 1-3 x planes {{1,2,3,4,5,6}}x{{1,2,3,4,5,7}}, rectangular and asymmetric included) for convolution, deconvolution, max-pool with linear activation on pairwise-distinct integer data{} (the ring also on {{-1,0,1}} data with ties and on generic non-dyadic floats), both input representations (flat vector / CxHxW, must be bit-identical); ring of <= {} deviations x E5 x dyadic data; dense n,m in 1..4 x E5+softmax x bias; a LARGE-VALUE ring (kernel 5,7; stride 3,4; padding 3; dilation 3; 4,8 channels; 8,16 filters; planes 12x13, 28x32) walked with <= 1 (thorough 2) deviations; HEAVY layers (3 channels, 8 filters, 24x30 plane: >= 64k multiply-adds) x <= 1 (thorough 2) deviations of kernel / stride / padding / dilation per axis over the large-value domains; the ring also on subnormal data; wide dense layers (33, 64, 65, 100, 257); one 6-layer network; networks: every sequence of <= {} layers from {{dense,conv,deconv,pool,feedback}} over 5 input shapes with <= {} configuration deviations that the reference accepts. Oracle: definitional reference forward, pre- and post-activation of every layer. Non-trivial = case whose reference output has >= 2 distinct non-zero entries",
+        rule: format!("single layers: FULL lattice L (kernel 1-3 x stride 1-2(3 for pool) x padding 0-2 x dilation 1-2 x channels 1-2 x filters 1-3 x planes {{1,2,3,4,5,6}}x{{1,2,3,4,5,7}}, rectangular and asymmetric included) for convolution, deconvolution, max-pool with linear activation on pairwise-distinct integer data{} (the ring also on {{-1,0,1}} data with ties and on generic non-dyadic floats), both input representations (flat vector / CxHxW, must be bit-identical); ring of <= {} deviations x E5 x dyadic data; dense n,m in 1..4 x E5+softmax x bias; a LARGE-VALUE ring (kernel 5,7; stride 3,4; padding 3; dilation 3; 4,8 channels; 8,16 filters; planes 12x13, 28x32) walked with <= 1 (thorough 2) deviations; HEAVY layers (3 channels, 8 filters, 24x30 plane: >= 64k multiply-adds) x <= 1 (thorough 2) deviations of kernel / stride / padding / dilation per axis over the large-value domains; the ring also on subnormal data; LONG kernels (8, 9, 10, 16, 17 taps on one axis) x dilation 1..3 x stride 1..2 x padding 0/2 on that axis for convolution (deconvolution, max-pool without dilation); wide dense layers (33, 64, 65, 100, 257); one 6-layer network; networks: every sequence of <= {} layers from {{dense,conv,deconv,pool,feedback}} over 5 input shapes with <= {} configuration deviations that the reference accepts. Oracle: definitional reference forward, pre- and post-activation of every layer. Non-trivial = case whose reference output has >= 2 distinct non-zero entries",
             if ctx.tier.thorough() { " and dyadic data, and ReLU" } else { "" }, if ctx.tier.thorough() { 3 } else { 2 }, 3, if ctx.tier.thorough() { 2 } else { 1 }),
         bound: "kernel <= 3, stride <= 2 (3 pool), padding <= 2, dilation <= 2, planes <= 6x7, depth <= 3".into(),
         exhaustive: true,
@@ -325,6 +325,36 @@ pub fn cases(ctx: &Ctx) -> Vec<Kv> {
             }
             let act = if ix.iter().sum::<usize>() % 2 == 0 { "linear" } else { "relu" };
             out.push(Kv::new().put("kind", "heavy").put("layer", kind_name(kind)).put("ix", ixs(&ix)).put("act", act).put("val", "dyadic").put("flat", (ix.iter().sum::<usize>() % 3 == 0) as u8));
+        }
+    }
+    // LONG kernels (8, 9, 10, 16, 17 taps on one axis: beyond any unrolling / blocking factor of the tap loop) crossed with
+    // dilation 1..3, stride 1..2 and padding 0 / 2 on that axis - a product of two "large" dimensions that the
+    // deviation-bounded walks above take one at a time
+    for axis in 0..2usize {
+        let ax = |long: usize, short: usize| if axis == 0 { (long, short) } else { (short, long) };
+        for k in [8usize, 9, 10, 16, 17] {
+            for s in 1..=2usize {
+                for p in [0usize, 2] {
+                    for d in 1..=3usize {
+                        let extent = d * (k - 1) + 1 + 3 - 2 * p.min(1);
+                        let net = Net::new(
+                            Dims::Chw(2, ax(extent, 3).0, ax(extent, 3).1),
+                            vec![L::Conv { f: 2, k: ax(k, 2), s: ax(s, 1), p: ax(p, 0), d: ax(d, 1), act: Act::Linear, drop: None }],
+                        );
+                        if crate::refmodel::net::ref_shapes(&net).is_ok() {
+                            out.push(Kv::new().put("kind", "net").put("net", net.name()).put("val", "dyadic").put("flat", (k + d) % 2));
+                        }
+                    }
+                    let net = Net::new(Dims::Chw(2, ax(4, 3).0, ax(4, 3).1), vec![L::Deconv { f: 2, k: ax(k, 2), s: ax(s, 1), p: ax(p, 0), act: Act::Linear, drop: None }]);
+                    if crate::refmodel::net::ref_shapes(&net).is_ok() {
+                        out.push(Kv::new().put("kind", "net").put("net", net.name()).put("val", "dyadic").put("flat", k % 2));
+                    }
+                }
+                let net = Net::new(Dims::Chw(2, ax(k + 5, 3).0, ax(k + 5, 3).1), vec![L::Pool { k: ax(k, 2), s: ax(s, 1) }]);
+                if crate::refmodel::net::ref_shapes(&net).is_ok() {
+                    out.push(Kv::new().put("kind", "net").put("net", net.name()).put("val", "dyadic").put("flat", k % 2));
+                }
+            }
         }
     }
     // wide dense layers (beyond any small unrolling / blocking factor)
